@@ -161,15 +161,21 @@ def simple_bytes(k):
     return '\\' not in r and not (b"'" in k and b'"' in k)
 
 
+def simple_tuple(k):
+    """a tuple key the path reader can read back: numbers, None and such tuples, no strings (a quote inside the parentheses ends the element: F57)"""
+    return all((simple_tuple(x) if isinstance(x, tuple) else not isinstance(x, (str, bytes))) for x in k)
+
+
 def bytes_keys(ctx):
     """bytes dictionary keys (outside the key universe of the Lean model: implementation only): the path DeepDiff reports is read back by
     parse_path and extract, stringify_path inverts parse_path, DeepSearch reports the same string, the tree view's list form is the key sequence"""
-    pool = [b'x', b'', b'ab c', b"it's", b'say "x"', b'0', b'root', b'a.b', b'a[0]', b'__p', b'\xff\x00', b'a"b\'c', b'C:\\tmp', b'\n', 'é'.encode()]
+    pool = [b'x', b'', b'ab c', b"it's", b'say "x"', b'0', b'root', b'a.b', b'a[0]', b'__p', b'\xff\x00', b'a"b\'c', b'C:\\tmp', b'\n', 'é'.encode(),
+            (1, 2), (), (0,), (1, (2, 3)), ('a', 'b'), (1.5, None), (True, 'x y')]            # tuples as keys (finding F64: rendered item by item, root[1][2])
     others = ['a', "it's", 1, 1.5, None, True, Idx(0), Idx(2), '']
     n = 300 if ctx.thorough() else 60
     for _ in range(n):
         ks = [ctx.rng.choice(pool) if ctx.rng.random() < 0.6 else ctx.rng.choice(others) for _ in range(ctx.rng.randint(1, 3))]
-        if not any(isinstance(k, bytes) for k in ks):
+        if not any(isinstance(k, (bytes, tuple)) for k in ks):
             ks.insert(ctx.rng.randrange(len(ks) + 1), ctx.rng.choice(pool))
         plain = [int(k) if isinstance(k, Idx) else k for k in ks]
         ctx.evaluations += 1
@@ -181,7 +187,8 @@ def bytes_keys(ctx):
         ctx.nontriv(('bytes keys', repr(ks)))
         if o.get('tree_list') is not None and not (isinstance(o['tree_list'], list) and same_keys(o['tree_list'], plain)):
             ctx.violate(case, 'tree list-form path = %r, expected %r' % (o['tree_list'], plain))
-        if not all(simple_bytes(k) for k in ks if isinstance(k, bytes)) or not all(safe_key(k) for k in ks if not isinstance(k, bytes)):
+        if (not all(simple_bytes(k) for k in ks if isinstance(k, bytes)) or not all(simple_tuple(k) for k in ks if isinstance(k, tuple))
+                or not all(safe_key(k) for k in ks if not isinstance(k, (bytes, tuple)))):
             ctx.count('bytes_keys:outside_string_domain'); continue
         ctx.count('bytes_keys')
         if o.get('path') is None:
@@ -376,7 +383,8 @@ def run(ctx, impl_only=False):
         'F8d': lambda: stringify_path([1, 2, 'age']) == "root[1][2]['age']",
         'F57': lambda: (lambda o: isinstance(o['parsed'], list) and same_keys(o['parsed'], [b'\xff\x00']) and o['extract_ok'])(observe([b'\xff\x00'])[0]),
         'F55': lambda: (lambda o: o.get('path') == "root[b'x']['a']" and o['extract_ok'] and same_keys(o['parsed'], [b'x', 'a']))(observe([b'x', 'a'])[0]),      # repaired
-        'F56': lambda: observe([b'x', 'a'])[0].get('search_paths') == ["root[b'x']['a']"],                                                                    # repaired
+        'F56': lambda: observe([b'x', 'a'])[0].get('search_paths') == ["root[b'x']['a']"],
+        'F64': lambda: (lambda o: o.get('path') == "root[(1, 2)]['a']" and o['extract_ok'] and same_keys(o['parsed'], [(1, 2), 'a']))(observe([(1, 2), 'a'])[0]),     # repaired                                                                    # repaired
     }
     for fid, f in kf.items():
         if fid in wit:
